@@ -451,9 +451,67 @@ fn exec_longerr(out: &mut CaseOut) {
     }
 }
 
+/// the bracket-less and bracketed nesting shapes of C03 and the filter shapes of C09, `depth` levels deep, through the
+/// three text entry points of the C API: each call must come back (a value or null + message) - a stack overflow
+/// inside the C boundary aborts the process, which the supervisor attributes to this case
+const ZINC_DEEP: &[(&str, &str)] = &[
+    ("[", "]"),
+    ("{a:", "}"),
+    ("<<\nver:\"3.0\"\na\n", "\n>>"),
+    ("ver:\"3.0\" a:", ""),
+    ("ver:\"3.0\"\nc m:", ""),
+    ("ver:\"3.0\"\na\n", ""),
+    ("ver:\"3.0\"\na,b\n1,", ""),
+    ("ver:\"3.0\" m\na\n", ""),
+];
+fn exec_deeptext(input: &str, out: &mut CaseOut) {
+    use libhaystack::c_api::err::last_error_message;
+    use libhaystack::c_api::str::haystack_string_destroy;
+    use std::ffi::CString;
+    out.nontrivial = true;
+    let mut it = input.split(' ');
+    let kind = it.next().unwrap_or("z");
+    let depth: usize = it.next().and_then(|s| s.parse().ok()).unwrap_or(1000);
+    let idx: usize = it.next().and_then(|s| s.parse().ok()).unwrap_or(0);
+    let text = match kind {
+        "z" => {
+            let (open, close) = ZINC_DEEP[idx % ZINC_DEEP.len()];
+            let mut s = open.repeat(depth);
+            s.push_str(if open.starts_with("ver") { "ver:\"3.0\"\nb\n1\n" } else { "1" });
+            s.push_str(&close.repeat(depth));
+            s
+        }
+        "j" => {
+            let (open, close) = [("[", "]"), ("{\"a\":", "}"), ("{\"_kind\":\"dict\",\"a\":[", "]}")][idx % 3];
+            format!("{}1{}", open.repeat(depth), close.repeat(depth))
+        }
+        _ => crate::c09::deep_text(depth, crate::c09::SHAPES[idx % crate::c09::SHAPES.len()]),
+    };
+    out.stat(&format!("deeptext:{kind}"));
+    let c = match CString::new(text) {
+        Ok(c) => c,
+        Err(_) => return,
+    };
+    unsafe {
+        let r = match kind {
+            "z" => libhaystack::c_api::zinc::haystack_value_from_zinc_string(c.as_ptr()).map(drop).is_none(),
+            "j" => libhaystack::c_api::json::haystack_value_from_json_string(c.as_ptr()).map(drop).is_none(),
+            _ => libhaystack::c_api::filter::haystack_filter_parse(c.as_ptr()).map(drop).is_none(),
+        };
+        let m = last_error_message();
+        if r && m.is_null() {
+            out.fail("null_no_message", format!("the {kind} text entry point failed on a {depth}-deep text without a retrievable message"));
+        }
+        if !m.is_null() {
+            haystack_string_destroy(m as *mut std::os::raw::c_char);
+        }
+    }
+}
+
 pub fn exec(label: &str, input: &str, out: &mut CaseOut) {
     POISON.store(true, std::sync::atomic::Ordering::Relaxed);
     match label {
+        "deeptext" => exec_deeptext(input, out),
         "borrowed" => exec_borrowed(input.parse().unwrap_or(70), out),
         "longerr" => exec_longerr(out),
         "hist" | "tour" => {
@@ -519,6 +577,19 @@ pub fn generate(ctx: &mut Ctx) {
     ctx.case("nulltable", "-");
     ctx.case("borrowed", "70");
     ctx.case("longerr", "-");
+    for depth in [200usize, 5000, 100_000] {
+        for i in 0..ZINC_DEEP.len() {
+            ctx.case("deeptext", &format!("z {depth} {i}"));
+        }
+        for i in 0..3 {
+            ctx.case("deeptext", &format!("j {depth} {i}"));
+        }
+        for i in 0..crate::c09::SHAPES.len() {
+            if depth != 5000 {
+                ctx.case("deeptext", &format!("f {depth} {i}"));
+            }
+        }
+    }
     ctx.case("tour", &c17::show_history(&c17::tour()));
     // every (function, pointer parameter) with null
     for (f, ord, pos) in null_pairs() {
